@@ -1,4 +1,6 @@
 import Proofs.Lemmas.Tokens
+import Proofs.Lemmas.Split
+import Proofs.Lemmas.Normalise
 set_option linter.unusedSimpArgs false
 set_option linter.unusedVariables false
 /-
@@ -96,5 +98,51 @@ example : Wf false demoTight ∧ absAll demo = absAll demoTight ∧ renderAll de
 /-- An explicit `[0]` (with any inner whitespace) denotes the same term as no index. -/
 theorem explicit_zero (k : Kind) (w : List Char) : indexOf k (some ['0']) = indexOf k none := by
   cases k <;> decide
+
+/-! ## Statements are assembled independently -/
+
+/-- A list of lines is *complete* when the line-buffer automaton is back in its initial state after it
+    (all parentheses closed, no fence open, nothing buffered, no error). -/
+def Complete (l : List (List Char)) : Prop := endState .init l = some .init
+
+/-- **split_concat** (lines): after a complete part the automaton is in its initial state, so the statements of
+    `l₁ ++ l₂` are those of `l₁` followed by those of `l₂`, and the outcome is that of `l₂`. -/
+theorem split_concat_lines (l₁ l₂ : List (List Char)) (h : Complete l₁) :
+    splitGo .init (l₁ ++ l₂) = ((splitGo .init l₁).1 ++ (splitGo .init l₂).1, (splitGo .init l₂).2) ∧
+    (splitGo .init l₁).2 = .ok :=
+  ⟨splitGo_append l₁ l₂ .init .init h, splitGo_end_init l₁ .init h⟩
+
+/-- An error in the first part is final: nothing after it is looked at. -/
+theorem split_concat_error (l₁ l₂ : List (List Char)) (h : endState .init l₁ = none) :
+    splitGo .init (l₁ ++ l₂) = splitGo .init l₁ := splitGo_stop l₁ l₂ .init h
+
+/-- **split_concat** (text): `splitStatements (s₁ ++ "\n" ++ s₂) = splitStatements s₁ ++ splitStatements s₂`
+    for a complete `s₁` that does not end in a line-break character. -/
+theorem split_concat (s₁ s₂ : List Char) (c : Char) (hl : s₁.getLast? = some c) (hc : isLineBreak c = false)
+    (h : Complete (splitLines s₁)) :
+    splitStatements (s₁ ++ '\n' :: s₂) =
+      ((splitStatements s₁).1 ++ (splitStatements s₂).1, (splitStatements s₂).2) := by
+  unfold splitStatements
+  rw [splitLines_append_nl s₁ s₂ c hl hc]
+  exact (split_concat_lines _ _ h).1
+
+example : Complete (splitLines ['Y', '=', '(', 'X', '\n', ')']) := by unfold Complete; decide
+example : ¬ Complete (splitLines ['Y', '=', '(', 'X']) := by unfold Complete; decide
+
+/-- Blank lines and comment-only lines between statements change nothing. -/
+theorem blank_and_comment_lines_neutral (cs : List Char) (l : List (List Char)) :
+    splitGo .init ([] :: l) = splitGo .init l ∧ splitGo .init (('#' :: cs) :: l) = splitGo .init l :=
+  ⟨blank_line_neutral l, comment_line_neutral cs l⟩
+
+/-! ## Whitespace normalisation -/
+
+/-- The normalised template is a fixed point of the normalisation (so a normalised equation is not changed by
+    being normalised again). -/
+theorem normaliseWs_idempotent (s : List Char) : normaliseWs (normaliseWs s) = normaliseWs s := by
+  obtain ⟨h1, h2, h3⟩ := normaliseWs_invariants s
+  exact normaliseWs_fixed _ h1 h2 h3
+
+example : normaliseWs ['(', ' ', '\n', 'a', ' ', ' ', '+', '\t', 'b', ' ', ')'] = ['(', 'a', ' ', '+', ' ', 'b', ')'] := by
+  decide
 
 end Fsic.C14
